@@ -162,6 +162,31 @@ def gen_script(rng, prog):
     return ops, ref
 
 
+def mixed_script(rng, prog):
+    """ops (and the interpreter-only reference ops) of one history that mixes interfaces ACROSS link steps
+    (tools/gen_c03_progs.py gen_mixed_history): a module linked lazily or with the interpreter interface (+ explicit
+    MIR_gen of single functions), part of it executed, a later module -- related or not -- linked eagerly, then the
+    earlier functions executed on the paths not taken before.  Whole-function generation only (no lazy-BB: see the
+    known finding c16:gen-after-lazybb); every call is also made in the reference context."""
+    steps = G.gen_mixed_history(rng, prog, ifaces=('interp', 'lazy', 'lazy', 'gen'))
+    ops, ref = ['opt %d' % rng.choice([0, 1, 1, 2])], []
+    for st in steps:
+        if st[0] == 'link':
+            mods = ','.join(map(str, st[1]))
+            ops += ['load ' + mods, 'link ' + st[2], 'snap']
+            ref += ['load ' + mods, 'link interp', 'snap']
+        elif st[0] == 'gen':
+            if rng.random() < 0.3:
+                ops.append('opt %d' % rng.choice([0, 1, 2, 3]))
+            ops += ['gen ' + st[1], 'snap']
+        else:
+            ops += [st[1], 'snap']
+            ref.append(st[1])
+    ops.append('snap')
+    ref.append('snap')
+    return ops, ref
+
+
 SNAP_BAD = ('TEXT-CHANGED', 'INSNS-REPLACED', 'VARS-CHANGED', 'ORIGINAL-INSNS-LEFT', 'LREF-ORIG-LEFT', 'ADDR-CHANGED',
             'MC-CHANGED', 'NO-CALL-ADDR', 'GEN-RETURNED-OTHER-ADDR', 'INTERP-STATE-LOST', 'CRASH', 'ERROR', 'NOFUNC', 'BADOP')
 
@@ -267,6 +292,25 @@ def shrink_ops(impl, path, ops, ref, jmpi=True):
     return full, rr
 
 
+def e2e_case(chk, impl, prog, path, ops, ref):
+    """run one end-to-end history; report (shrunk) when it changes the program.  -> True when a finding was made"""
+    jmpi = any(ft in prog['features'] for ft in ('laddr', 'lref', 'lref_diff'))
+    why = check_e2e(impl, path, ops, ref, jmpi)
+    if why and why.startswith('SKIP:'):
+        chk.dist('skipped', why.split(':')[-1])
+        why = None
+    if not why:
+        return False
+    ops2, ref2 = shrink_ops(impl, path, ops, ref, jmpi)
+    why2 = check_e2e(impl, path, ops2, ref2, jmpi)
+    if why2 is None or why2.startswith('SKIP:'):
+        ops2, ref2, why2 = ops, ref, why
+    chk.finding('e2e:' + hashlib.sha1((prog['text'] + ';'.join(ops2)).encode()).hexdigest()[:12],
+                dict(kind='e2e', text=prog['text'], ops=ops2, ref=ref2, what=why2, jmpi=jmpi),
+                'generation changed the program: %s  [ops: %s]' % (why2[:300], ' ; '.join(ops2)[:400]))
+    return True
+
+
 # ---------------------------------------------------------------- run
 
 def run(chk):
@@ -283,6 +327,25 @@ def run(chk):
     nprog = 90 if quick else 400
     nproto = 10 if quick else 30
     ne2e = 3 if quick else 6
+    nmix = 40 if quick else 250
+    # histories mixing interfaces across link steps (own random stream: the programs below stay what they were)
+    mrng = chk.rng('c16mix')
+    for k in range(nmix):
+        prog = G.gen_program(mrng, feats=FEATS - {'lref', 'laddr'} if k % 3 == 2 else (FEATS - {'lref'} if k % 3 == 1 else FEATS), mixed=True)
+        path = write_prog(prog['text'], 'm')
+        for _ in range(2):
+            ops, ref = mixed_script(mrng, prog)
+            chk.count(('G', prog['text'], tuple(ops)), nontrivial=True)
+            chk.dist('mixed_link_sequence', '>'.join(o.split()[1] for o in ops if o.startswith('link ')))
+            for o in ops:
+                chk.dist('mixed_ops', ' '.join(o.split()[:2]) if o.split()[0] in ('link', 'opt') else o.split()[0])
+            if k == 0:
+                chk.sample('G(mixed) | ' + ' ; '.join(ops)[:400])
+            if e2e_case(chk, impl, prog, path, ops, ref):
+                found += 1
+                break
+        if found >= 2:
+            break
     for k in range(nprog):
         # two programs in three have no lref data: their functions may be interpreted and generated in any order;
         # one in three has no label addresses at all: results are compared with the reference at -O2/-O3 too
@@ -340,20 +403,8 @@ def run(chk):
                 chk.dist('e2e_ops', ' '.join(o.split()[:2]) if o.split()[0] in ('link', 'opt') else o.split()[0])
             if k == 0:
                 chk.sample('G | ' + ' ; '.join(ops)[:300])
-            jmpi = any(ft in prog['features'] for ft in ('laddr', 'lref', 'lref_diff'))
-            why = check_e2e(impl, path, ops, ref, jmpi)
-            if why and why.startswith('SKIP:'):
-                chk.dist('skipped', why.split(':')[-1])
-                why = None
-            if why:
+            if e2e_case(chk, impl, prog, path, ops, ref):
                 found += 1
-                ops2, ref2 = shrink_ops(impl, path, ops, ref, jmpi)
-                why2 = check_e2e(impl, path, ops2, ref2, jmpi) or why
-                if check_e2e(impl, path, ops2, ref2, jmpi) is None:
-                    ops2, ref2 = ops, ref
-                chk.finding('e2e:' + hashlib.sha1((prog['text'] + ';'.join(ops2)).encode()).hexdigest()[:12],
-                            dict(kind='e2e', text=prog['text'], ops=ops2, ref=ref2, what=why2, jmpi=jmpi),
-                            'generation changed the program: %s  [ops: %s]' % (why2[:300], ' ; '.join(ops2)[:400]))
                 break
         if found >= 2:
             break
